@@ -339,8 +339,7 @@ def run(ctx: Context) -> None:
                           construct=f"{cc.short}.check_dataset closure ({len(closure)} functions): " + ('; '.join(sorted(set(bad))[:4]) if bad else 'no writes, no non-deterministic reads'))
         ctx.notes.append(f"R11.3 analysed {n_funcs} function instances in check_dataset closures")
         # scans take the first match in dataset order
-        for q in ('emsarray.conventions.grid.CFGridTopology.latitude_name', 'emsarray.conventions.grid.CFGridTopology.longitude_name',
-                  'emsarray.conventions.ugrid.Mesh2DTopology.mesh_variable'):
+        for q in ('emsarray.conventions.grid.CFGridTopology.latitude_name', 'emsarray.conventions.grid.CFGridTopology.longitude_name'):
             fi = ctx.func(q)
             nx = [c for c in calls_in(fi) if dotted(c.func) == 'next' and c.args and isinstance(c.args[0], ast.GeneratorExp)]
             ok = False
@@ -348,8 +347,33 @@ def run(ctx: Context) -> None:
                 it = norm_text(c.args[0].generators[0].iter)
                 ok = ok or it in ('self.dataset.variables.items()', 'self.dataset.data_vars.values()', 'self.dataset.variables.values()',
                                   'self.dataset.data_vars.items()')
-            ctx.check('R11.3', ok, "coordinate / mesh discovery takes the first match in dataset variable order", fi, nx[0] if nx else fi.node,
+            ctx.check('R11.3', ok, "coordinate discovery takes the first match in dataset variable order", fi, nx[0] if nx else fi.node,
                       construct=f"next(... for ... in {norm_text(nx[0].args[0].generators[0].iter) if nx else '?'})")
+        # the mesh variable: of the variables with cf_role mesh_topology, the 2-D one whatever its position
+        # (a 1-D network listed first must not decide whether the dataset is a UGRID dataset)
+        from .common import path_conditions
+        mv = ctx.func('emsarray.conventions.ugrid.Mesh2DTopology.mesh_variable')
+        mflow = ctx.flow(mv)
+
+        def role_filtered(e) -> bool:
+            return mflow.reaches(e, lambda n: isinstance(n, ast.Compare) and "attrs.get('cf_role') == 'mesh_topology'" in norm_text(n)) and \
+                mflow.reaches(e, lambda n: norm_text(n) in ('self.dataset.data_vars.values()', 'self.dataset.data_vars.items()', 'self.dataset.data_vars'))
+        preferred, fallback = [], []
+        for r in mv.returns():
+            conds = path_conditions(mv, r)
+            if any('topology_key' in norm_text(t) and pol for t, pol in conds if not (isinstance(t, ast.Compare) and isinstance(t.ops[0], ast.Is))) or \
+                    any(norm_text(t) == 'self.topology_key is not None' and pol or norm_text(t) == 'self.topology_key is None' and not pol for t, pol in conds):
+                continue
+            two_d = any("attrs.get('topology_dimension') == 2" in norm_text(t) and pol for t, pol in conds)
+            comp = mflow.resolve(r.value)
+            if isinstance(comp, ast.Call) and dotted(comp.func) == 'next' and comp.args and isinstance(comp.args[0], ast.GeneratorExp):
+                two_d = two_d or any("attrs.get('topology_dimension') == 2" in norm_text(i) for g_ in comp.args[0].generators for i in g_.ifs)
+            (preferred if two_d else fallback).append(r)
+        ok = bool(preferred) and all(role_filtered(r.value) for r in preferred + fallback) and \
+            all(min(x.lineno for x in preferred) < f.lineno for f in fallback)
+        ctx.check('R11.3', ok, "the mesh variable is looked for among the data variables with cf_role 'mesh_topology', and one with topology_dimension 2 is taken before any other, wherever it stands", mv,
+                  (preferred or fallback or [mv.node])[0],
+                  construct=f"returns preferring topology_dimension == 2: {[norm_text(r.value) for r in preferred]}; fall-back: {[norm_text(r.value) for r in fallback]}")
 
     # ------------------------------------------------------------------ R11.4 typestate
     with ctx.section('R11.4 typestate'):
@@ -484,6 +508,8 @@ VARIANTS = [
     V('C11', 'is-bound-test-removed', _B, "        if state.is_bound():\n            raise ValueError(\n                \"A convention has already been bound to this dataset, \"\n                \"cannot assign a new convention.\")\n", "", 'R11.4'),
     V('C11', 'accessor-returns-unbound-copy', _AC, "    convention.bind()\n    return convention", "    convention.bind()\n    return convention_class(dataset)", 'R11.4'),
     V('C11', 'accessor-ignores-bound', _AC, "    if state.convention is not None:\n        return state.convention\n", "", 'R11.4'),
+    V('C11', 'mesh-variable-first-of-any-dimension', _U, "        for data_array in mesh_variables:\n            if data_array.attrs.get('topology_dimension') == 2:\n                return data_array\n", "", 'R11.3'),
+    V('C11', 'mesh-variable-among-all-variables', _U, "            data_array for data_array in self.dataset.data_vars.values()\n            if data_array.attrs.get('cf_role') == 'mesh_topology'", "            data_array for data_array in self.dataset.data_vars.values()\n            if 'cf_role' in data_array.attrs", 'R11.3'),
     V('C11', 'detection-mutates-dataset', _S, "        if 'ems_version' not in dataset.attrs:\n            return None", "        if 'ems_version' not in dataset.attrs:\n            return None\n        dataset.attrs['detected'] = 'shoc'", 'R11.3'),
     V('C11', 'detection-random', _U, "        conventions = str(dataset.attrs.get('Conventions', ''))", "        conventions = str(dataset.attrs.get('Conventions', ''))\n        import random\n        if random.random() < 0.001:\n            return None", 'R11.3'),
     # benign
